@@ -154,6 +154,29 @@ func (w *W) eachValidDoc(scale int, fn inputFn) {
 		tail := `","z":[true,null]}`
 		fn("threshold-8k", []byte(body+strings.Repeat("x", target-len(body)-len(tail))+tail))
 	}
+	// 9. long stretches without any structural character (a string, white space), alone and
+	// behind enough dense elements that an index is being carried between buffers
+	for _, L := range []int{16383, 16384, 32768, 65535, 65536, 65537, 131071, 131072, 131073, 200000, 1 << 20} {
+		for v := 0; v < 4; v++ {
+			if !w.mine(i) {
+				i++
+				continue
+			}
+			i++
+			var doc string
+			switch v {
+			case 0:
+				doc = `["` + strings.Repeat("x", L) + `",1]`
+			case 1:
+				doc = `[1,` + strings.Repeat(" ", L) + `2]`
+			case 2:
+				doc = `[` + strings.Repeat("0,", 701+L%5) + `"` + strings.Repeat("y", L) + `"]`
+			default:
+				doc = `{"k":[` + strings.Repeat(" \n\t\r", L/4) + `null]}`
+			}
+			fn(fmt.Sprintf("no-structurals-%d", L), []byte(doc))
+		}
+	}
 	// 8. corpus
 	maxCorpus := 1 << 20
 	if scale > 4 {
